@@ -290,7 +290,7 @@ impl DcpsDomainParticipant {
         Ok(data_writer
             .registered_instance_info
             .iter()
-            .any(|x| x.instance_handle == instance_handle)
+            .any(|x| x.instance_handle == instance_handle && x.registered)
             .then_some(instance_handle))
     }
 
